@@ -93,29 +93,71 @@ Section Independence.
     destruct A1 as (X1 & X2 & X3). destruct A2 as (Y1 & Y2 & Y3). repeat split; congruence.
   Qed.
 
-  (* every file patch is either of the class or outside it (names related through a file patch lie in one class) *)
+  (* every file patch of the list is either of the class or outside it (names related through a file patch lie in
+     one class) *)
   Variable cls : pfilepatch -> bool.
-  Hypothesis cls_in : forall fp, cls fp = true -> fpK K fp.
-  Hypothesis cls_out : forall fp, cls fp = false -> fp_out fp.
+  Definition classified (fp : pfilepatch) : Prop := if cls fp then fpK K fp else fp_out fp.
 
   Theorem class_is_independent index sp fuzz : forall fps st stK af afK af' st',
+    Forall classified fps ->
     ws (a_files st) (a_files stK) ->
     apply_file_patches fs st index sp fuzz fps af = ROk (af', st') ->
     exists afK' stK', apply_file_patches fs stK index sp fuzz (filter cls fps) afK = ROk (afK', stK') /\
                       ws (a_files st') (a_files stK').
   Proof.
-    induction fps as [|fp fps IH]; intros st stK af afK af' st' Hw; cbn [apply_file_patches filter].
+    induction fps as [|fp fps IH]; intros st stK af afK af' st' Hcl Hw; cbn [apply_file_patches filter].
     - intros [= _ <-]. exists afK, stK. split; [reflexivity|exact Hw].
-    - destruct (apply_one_file_patch fs st index (sp_name sp) (sp_reverse sp) fuzz fp) as [[ok st1]| |] eqn:Ea; cbn [rbind]; try discriminate.
+    - inversion Hcl as [|? ? Hfp Hrest]; subst. unfold classified in Hfp.
+      destruct (apply_one_file_patch fs st index (sp_name sp) (sp_reverse sp) fuzz fp) as [[ok st1]| |] eqn:Ea; cbn [rbind]; try discriminate.
       intros H. destruct (cls fp) eqn:Ec.
-      + pose proof (apply_one_file_patch_sim K dm fs fs st stK index (sp_name sp) (sp_reverse sp) fuzz fp Hw (cls_in fp Ec)) as Hs.
+      + pose proof (apply_one_file_patch_sim K dm fs fs st stK index (sp_name sp) (sp_reverse sp) fuzz fp Hw Hfp) as Hs.
         rewrite Ea in Hs. cbn [apply_file_patches].
         destruct (apply_one_file_patch fs stK index (sp_name sp) (sp_reverse sp) fuzz fp) as [[ok2 stK1]| |];
           cbn [ressim] in Hs; try contradiction. cbn [rbind].
         destruct Hs as (_ & Hw1 & _). cbn [snd] in Hw1.
-        exact (IH st1 stK1 _ (afK || negb ok2) af' st' Hw1 H).
-      + pose proof (apply_one_outside _ _ _ _ _ _ _ _ (cls_out fp Ec) Ea) as V.
-        apply (IH st1 stK (af || negb ok) afK af' st'); [|exact H].
+        exact (IH st1 stK1 _ (afK || negb ok2) af' st' Hrest Hw1 H).
+      + pose proof (apply_one_outside _ _ _ _ _ _ _ _ Hfp Ea) as V.
+        apply (IH st1 stK (af || negb ok) afK af' st' Hrest); [|exact H].
         eapply ws_trans; [apply veqK_ws; exact V|exact Hw].
   Qed.
 End Independence.
+
+(* ---------- the classes the distributor makes ---------- *)
+
+(* W assigns a worker to every name; C07: the two names of a file patch get the same worker.  Then, for every worker
+   w, the names of w form a class: its view after all file patches = its view after its own file patches. *)
+Section Workers.
+  Variable W : bytes -> nat.
+  Variable dm : N.
+  Variable fs : fsys.
+
+  Definition same_worker (fp : pfilepatch) : Prop :=
+    forall o n, kold fp = Some o -> knew fp = Some n -> W o = W n.
+
+  Definition owner (fp : pfilepatch) : nat :=
+    match kold fp, knew fp with Some o, _ => W o | None, Some n => W n | None, None => 0%nat end.
+
+  Lemma same_worker_classified w fp : same_worker fp ->
+    classified (fun k => Nat.eqb (W k) w) (fun fp => Nat.eqb (owner fp) w) fp.
+  Proof.
+    intros Hs. unfold classified, owner, fpK, fp_out, K.
+    destruct (kold fp) as [o|] eqn:Eo; destruct (knew fp) as [n|] eqn:En.
+    - pose proof (Hs o n Eo En) as E. destruct (Nat.eqb (W o) w) eqn:Ew.
+      + split; intros x [= <-]; [exact Ew|rewrite <- E; exact Ew].
+      + split; intros x [= <-]; [exact Ew|rewrite <- E; exact Ew].
+    - destruct (Nat.eqb (W o) w) eqn:Ew; split; intros x Hx; try discriminate Hx; injection Hx as <-; exact Ew.
+    - destruct (Nat.eqb (W n) w) eqn:Ew; split; intros x Hx; try discriminate Hx; injection Hx as <-; exact Ew.
+    - destruct (Nat.eqb 0 w); split; intros x Hx; discriminate Hx.
+  Qed.
+
+  Theorem worker_is_independent w index sp fuzz fps st stK af afK af' st' :
+    Forall same_worker fps ->
+    wsim (K (fun k => Nat.eqb (W k) w)) dm fs (a_files st) fs (a_files stK) ->
+    apply_file_patches fs st index sp fuzz fps af = ROk (af', st') ->
+    exists afK' stK', apply_file_patches fs stK index sp fuzz (filter (fun fp => Nat.eqb (owner fp) w) fps) afK = ROk (afK', stK') /\
+                      wsim (K (fun k => Nat.eqb (W k) w)) dm fs (a_files st') fs (a_files stK').
+  Proof.
+    intros Hs. apply class_is_independent.
+    eapply Forall_impl; [|exact Hs]. intros fp. apply same_worker_classified.
+  Qed.
+End Workers.
